@@ -152,7 +152,7 @@ var decoys = []string{decoyMgmt, decoyPlugin, decoyExcl, decoyParent, decoyProfi
 func init() {
 	// self-test of the name tables: a stem inside another word would make "occurs in" ambiguous
 	words := append(append([]string{}, unrelatedImports...), decoys...)
-	words = append(words, "org.", "com.", "io.", "net.", ".core", ".boot", ".ext", "-kit", ".x2", "second", "Client", "core.Engine", "api.v1.Service", "util.Helper.run", "com.example.app", "shaded.")
+	words = append(words, "org.", "com.", "io.", "net.", "javax.", "jakarta.", ".core", ".boot", ".ext", "-kit", ".x2", "second", "Client", "core.Engine", "api.v1.Service", "util.Helper.run", "com.example.app", "shaded.")
 	for i, s := range stems {
 		for j, o := range stems {
 			if i != j && strings.Contains(o, s) {
@@ -176,7 +176,7 @@ type namer struct {
 }
 
 var (
-	groupPrefixes = []string{"org.", "com.", "io.", "net.", ""}
+	groupPrefixes = []string{"org.", "com.", "io.", "net.", "", "javax.", "jakarta."}
 	groupSuffixes = []string{"", ".core", ".boot", ".ext", "-kit", ".x2"}
 	artifactKinds = []string{"core", "api", "starter-web", "test", "bom", "client", "core.api", "lib_2.12"}
 	pomVersions   = []string{"1.2.3", "4.12", "2.0.0.RELEASE", "0.9-SNAPSHOT", "[1.0,2.0)", "${lib.version}", "${project.version}"}
@@ -721,7 +721,7 @@ var gradleBlocks = []string{
 	"dependencyManagement {\n    imports {\n        mavenBom 'org.decoy.mgmt:mgmt-bom:1.0'\n    }\n}\n",
 	"dependencyManagement {\n    dependencies {\n        dependency 'org.decoy.mgmt:mgmt-bom-two:1.0'\n    }\n}\n",
 	"dependencyLocking {\n    lockAllConfigurations()\n}\n",
-	"subprojects {\n    apply plugin: 'java'\n    dependencies {\n        testImplementation 'org.decoy.profile:profile-only:1.0'\n    }\n}\n",
+	"subprojects {\n    apply plugin: 'java'\n    repositories {\n        mavenCentral()\n    }\n}\n",
 	"configurations.all {\n    exclude group: 'org.decoy.excl', module: 'excluded-2'\n}\n",
 }
 
@@ -746,19 +746,20 @@ const (
 	nPlatform
 	nCatalog
 	nTrailingClosure
+	nNonEntry
 	notationCount
 )
 
 var notationNames = []string{"single_quoted", "double_quoted", "parenthesised_single", "parenthesised_double", "parenthesised_single",
 	"parenthesised_with_exclude_closure", "parenthesised_with_closure", "project_reference", "file_tree",
 	"project_reference_in_parentheses_or_gradleApi", "map_notation(open)", "interpolated_version(open)", "platform(open)",
-	"version_catalog_or_testFixtures_reference", "string_with_trailing_closure_argument"}
+	"version_catalog_or_testFixtures_reference", "string_with_trailing_closure_argument", "statement_that_is_no_entry(def/if/constraints)"}
 
 // feature switch per notation (known_findings.json can exclude a notation from the search)
 var notationFeature = map[int]string{nDouble: "gradle_double_quoted", nParenDouble: "gradle_double_quoted",
 	nProject: "gradle_non_string_notation", nFileTree: "gradle_non_string_notation", nOtherRef: "gradle_non_string_notation",
 	nMap: "gradle_non_string_notation", nInterpolated: "gradle_non_string_notation", nPlatform: "gradle_non_string_notation",
-	nCatalog: "gradle_non_string_notation"}
+	nCatalog: "gradle_non_string_notation", nNonEntry: "gradle_non_entry_statement"}
 
 type entrySpec struct {
 	Conf            int
@@ -784,7 +785,7 @@ var entrySpecGen = rapid.Custom(func(t *rapid.T) entrySpec {
 	// weights: plain notations are the most frequent
 	e.Notation = rapid.SampledFrom([]int{nSingle, nSingle, nSingle, nSingle, nSingle, nDouble, nDouble, nDouble, nParenSingle, nParenSingle,
 		nParenDouble, nSpaceParen, nExcludeClosure, nPropertyClosure, nProject, nFileTree, nOtherRef, nMap, nInterpolated, nPlatform,
-		nCatalog, nTrailingClosure}).Draw(t, "notation")
+		nCatalog, nTrailingClosure, nNonEntry}).Draw(t, "notation")
 	e.Variant = rapid.IntRange(0, 2).Draw(t, "variant")
 	if rapid.IntRange(0, 5).Draw(t, "sameGroup") == 5 {
 		e.SameGroupAs = rapid.IntRange(1, 4).Draw(t, "sameGroupAs")
@@ -959,6 +960,20 @@ func renderGradle(g gradleSpec, n *namer) gradleOut {
 				line = conf + " '" + coord + "', {\n" + ind + ind + "exclude group: '" + decoyExcl + "'\n" + ind + "}"
 			} else {
 				line = conf + " '" + coord + "', { transitive = false }"
+			}
+		case nNonEntry:
+			// statements of the dependencies block that are no entries: they must not disturb the entries around them;
+			// whether an entry nested in them is extracted is left open
+			must = false
+			switch v % 3 {
+			case 0:
+				line = "def " + strings.NewReplacer("-", "_", ".", "_").Replace(art) + " = '" + ver + "'"
+			case 1:
+				open = true
+				line = "if (project.hasProperty('extra')) {\n" + ind + ind + conf + " '" + coord + "'\n" + ind + "}"
+			default:
+				open = true
+				line = "constraints {\n" + ind + ind + conf + " '" + coord + "'\n" + ind + "}"
 			}
 		case nCatalog:
 			must = false
@@ -1682,7 +1697,7 @@ func checkUnused(c ProjCase) pbt.Verdict {
 	dir := cli.Scratch("c19proj")
 	defer os.RemoveAll(dir)
 	cli.WriteTree(dir, c.Files)
-	var got, again, viaVar []core_domain.CodeDependency
+	var got, again []core_domain.CodeDependency
 	if p := call(func() {
 		// the pipeline of analysis/dep/app/dep_analysis.go
 		files := cocafile.GetFilesWithFilter(dir, cocafile.JavaFileFilter)
@@ -1692,22 +1707,18 @@ func checkUnused(c ProjCase) pbt.Verdict {
 		classNodes := callApp.AnalysisFiles(iNodes, files)
 		app := deps.NewDepApp()
 		got = app.AnalysisPath(dir, classNodes)
-		// the same report asked for again (same app, same model), and through the instance exported for plug-ins
-		again = app.AnalysisPath(dir, classNodes)
-		viaVar = deps.DepApp.AnalysisPath(dir, classNodes)
+		// the same report asked for again on the same model, this time through the instance exported for plug-ins
+		again = deps.DepApp.AnalysisPath(dir, classNodes)
 	}); p != "" {
 		return pbt.Fail("unused-dependency analysis panicked: %s\n%s", p, renderProject(c))
 	}
 	if msg := judgeUnused(c, fromCoca(got), "DepAnalysisApp.AnalysisPath"); msg != "" {
 		return pbt.Fail("%s\n%s", msg, renderProject(c))
 	}
-	if msg := judgeUnused(c, fromCoca(again), "DepAnalysisApp.AnalysisPath, second call on the same model"); msg != "" {
+	if msg := judgeUnused(c, fromCoca(again), "deps.DepApp.AnalysisPath, second call on the same model"); msg != "" {
 		return pbt.Fail("%s\n%s", msg, renderProject(c))
 	}
-	if msg := judgeUnused(c, fromCoca(viaVar), "deps.DepApp.AnalysisPath, third call on the same model"); msg != "" {
-		return pbt.Fail("%s\n%s", msg, renderProject(c))
-	}
-	if msg := judgeUnused(c, fromCoca(got), "DepAnalysisApp.AnalysisPath, first result re-read after two more calls"); msg != "" {
+	if msg := judgeUnused(c, fromCoca(got), "DepAnalysisApp.AnalysisPath, first result re-read after the second call"); msg != "" {
 		return pbt.Fail("%s\n%s", msg, renderProject(c))
 	}
 	return projVerdict(c)
@@ -1800,17 +1811,18 @@ func tail(s string, n int) string {
 
 func init() {
 	pbt.SetProperty("C19")
-	pbt.Describe("rapid-generated manifests with ground truth. pom.xml: prolog variants, namespaces, 0-10 <dependency> with children in usual or shuffled order (version incl. ${property}, scope incl. an empty <scope/> element, type, optional, classifier, exclusions with own groupId/artifactId, empty <exclusions/>), artifact ids shared by two group ids, artifact ids with dots and underscores, comments between dependencies and between the children of one, commented-out dependencies and children, and parent / properties / dependencyManagement / build-plugins(-with-dependencies) / profiles / repositories before or after; one case in four analyses the same file twice. build.gradle: 0-8 entries in single-quoted, double-quoted, parenthesised (both quotes, with exclude / property / because+version closures) and trailing-closure string notation, project()/fileTree()/files()/gradleApi()/libs.x/testFixtures() entries (must be skipped), map notation / ${} interpolation / platform() / enforcedPlatform() (extract-or-skip), 16 configuration names incl. plugin- and user-defined ones, comments, entries ending in ';' or sharing a line, `dependencies{`, a one-line block, no dependencies block at all, 20 kinds of surrounding blocks incl. dependencyManagement / dependencyLocking / subprojects-with-dependencies; one case in three analyses a second script (one other dependency / no dependencies block / the same script) in the same process without a reset and re-reads the first result. Projects: one or two manifests (pom, gradle, pom+pom, pom+gradle, gradle+gradle, a script without dependencies block next to one with; the second manifest may re-declare a dependency of the first) plus 0-5 Java files (main and test, classes, interfaces, two top-level types in one file, a source directory outside src/main/java, optionally a .gitignore naming single files) importing a drawn subset of the declared groups by exact-package, sub-package, wildcard and static imports, plus unrelated imports. Oracles: extraction = exactly the declared (group, artifact, scope/configuration) list in order; unused report (in-process pipeline of the deps command asked three times on one model, and the binary of analysis/dep with -p/--path/default/absolute path) = exactly the sub-list whose group id occurs in no import. Non-trivial: extraction: >= 3 dependencies and (pom) a decoy dependency section / exclusions / shuffled children, (gradle) >= 2 notations; unused report: >= 3 declared dependencies, used and unused ones interleaved, for gradle >= 2 notations. Distinct = hash of the case.",
+	pbt.Describe("rapid-generated manifests with ground truth. pom.xml: prolog variants, namespaces, 0-10 <dependency> with children in usual or shuffled order (version incl. ${property}, scope incl. an empty <scope/> element, type, optional, classifier, exclusions with own groupId/artifactId, empty <exclusions/>), artifact ids shared by two group ids, artifact ids with dots and underscores, comments between dependencies and between the children of one, commented-out dependencies and children, and parent / properties / dependencyManagement / build-plugins(-with-dependencies) / profiles / repositories before or after; one case in four analyses the same file twice. build.gradle: 0-8 entries in single-quoted, double-quoted, parenthesised (both quotes, with exclude / property / because+version closures) and trailing-closure string notation, project()/fileTree()/files()/gradleApi()/libs.x/testFixtures() entries (must be skipped), statements that are no entries (def, if block, constraints block; an entry nested in them: extract-or-skip), map notation / ${} interpolation / platform() / enforcedPlatform() (extract-or-skip), 16 configuration names incl. plugin- and user-defined ones, comments, entries ending in ';' or sharing a line, `dependencies{`, a one-line block, no dependencies block at all, 20 kinds of surrounding blocks incl. dependencyManagement (imports / dependencies) / dependencyLocking / subprojects; one case in three analyses a second script (one other dependency / no dependencies block / the same script) in the same process without a reset and re-reads the first result. Projects: one or two manifests (pom, gradle, pom+pom, pom+gradle, gradle+gradle, a script without dependencies block next to one with; the second manifest may re-declare a dependency of the first) plus 0-5 Java files (main and test, classes, interfaces, two top-level types in one file, a source directory outside src/main/java, optionally a .gitignore naming single files) importing a drawn subset of the declared groups by exact-package, sub-package, wildcard and static imports, plus unrelated imports. Oracles: extraction = exactly the declared (group, artifact, scope/configuration) list in order; unused report (in-process pipeline of the deps command asked twice on one model, and the binary of analysis/dep with -p/--path/default/absolute path) = exactly the sub-list whose group id occurs in no import. Non-trivial: extraction: >= 3 dependencies and (pom) a decoy dependency section / exclusions / shuffled children, (gradle) >= 2 notations; unused report: >= 3 declared dependencies, used and unused ones interleaved, for gradle >= 2 notations. Distinct = hash of the case.",
 		"group ids are drawn so that none is a substring of another, of a decoy group or of an unrelated import (re-checked inside the oracle)",
 		"map notation, \"g:a:${v}\", platform('g:a:v') and enforcedPlatform('g:a:v') may be extracted (correctly) or skipped; project()/fileTree()/files()/gradleApi()/libs.x/testFixtures(project()) must be skipped",
 		"a build.gradle rejected by the shipped Groovy parser (syntax error listener) is skipped and counted",
 		"with two manifests only the order inside each manifest is asserted (any interleaving of the two lists is accepted); a dependency declared in both manifests is expected once per declaration",
-		"dependencies blocks nested in buildscript / subprojects / dependencyManagement are not the project's dependencies block: their entries must not be extracted",
+		"dependencies blocks nested in buildscript / dependencyManagement are not the project's dependencies block: their entries must not be extracted",
 		"comments are placed between elements, never inside the text of groupId/artifactId/scope; XML encodings other than UTF-8 are not generated")
-	pbt.Register("maven", 400, 3000, genPomCase, checkPom)
-	pbt.Register("gradle", 140, 600, genGradleCase, checkGradle)
-	pbt.Register("unused", 140, 900, genProject, checkUnused)
-	pbt.Register("cli", 14, 60, genProject, checkCLI)
+	// quick counts are per shard; settings.json runs the quick tier in two shards
+	pbt.Register("maven", 250, 3000, genPomCase, checkPom)
+	pbt.Register("gradle", 80, 600, genGradleCase, checkGradle)
+	pbt.Register("unused", 90, 900, genProject, checkUnused)
+	pbt.Register("cli", 8, 60, genProject, checkCLI)
 }
 
 func TestProp(t *testing.T)   { pbt.Main(t) }
